@@ -13,9 +13,11 @@ CONSTANTS Depth,       \* nesting depth of the chain
           Modes,       \* subset of {"enc","dec"}
           RawPad       \* number of garbage bits above each leaf in encode sources
 
+Minus1 == -1
 U3 == [k |-> "uint", n |-> 3]
 LeafTypes ==
-    IF LeafSet = "small"
+    IF LeafSet = "tiny" THEN {U3}
+    ELSE IF LeafSet = "small"
     THEN {[k |-> "bool"], U3, [k |-> "int", n |-> 13]}
     ELSE {[k |-> "bool"], [k |-> "byte"], U3, [k |-> "int", n |-> 5], [k |-> "int", n |-> 13],
           [k |-> "uint", n |-> 17], [k |-> "int", n |-> 33], [k |-> "enum", n |-> 9, name |-> "E"]}
@@ -37,7 +39,13 @@ X(d) == IF d = 0
              \cup {Arr(e, c, x) : e \in BOOLEAN, c \in Caps, x \in X(d - 1)}
              \cup {Msg(e, p, x, tl) : e \in BOOLEAN, p \in BOOLEAN, x \in X(d - 1), tl \in BOOLEAN}
 
-Schemas == {Msg(e, p, x, tl) : e \in BOOLEAN, p \in BOOLEAN, x \in X(Depth), tl \in BOOLEAN}
+(* Depth = -1 selects one hand-picked family: an extensible array of        *)
+(* extensible messages followed by a tail field (the smallest shape on     *)
+(* which a statically computed element stride goes wrong).                 *)
+Schemas ==
+    IF Depth < 0
+    THEN {Msg(FALSE, p, Arr(TRUE, c, Msg(TRUE, FALSE, U3, FALSE)), TRUE) : p \in BOOLEAN, c \in Caps}
+    ELSE {Msg(e, p, x, tl) : e \in BOOLEAN, p \in BOOLEAN, x \in X(Depth), tl \in BOOLEAN}
 
 (* --- the two permitted evolution steps (Evolve.tla restates them as actions) --- *)
 NewFieldTypes == {U3, [k |-> "int", n |-> 13]}
